@@ -91,6 +91,11 @@ def finalize(agg, tier):
         for name in ("big:1MiB", "big:k12-256-chunks"):
             if not c.get(name):
                 out.append("deciding counter %s is zero" % name)
+    for f in ("hmac", "cmac", "blake2b", "blake2s"):
+        if not c.get("growing_histories:" + f):
+            out.append("no %s object authenticated a growing message" % f)
+    if not c.get("growing:earlier-tag-refused"):
+        out.append("no tag of a shorter prefix was shown to an object that had been extended")
     if not c.get("volume_forgeries"):
         out.append("no volume of wrong tags was shown to verify()")
     if not c.get("huge_cases"):
@@ -400,6 +405,8 @@ def blake2_adapter(which, dsize, key):
     A["ctor"] = with_decoy(ctor, decoy) if key else ctor
     A["objnew"] = (lambda o, d: o.new(data=d)) if not key else None
     A["uad"] = lambda: mod.new(digest_bytes=dsize, key=key, update_after_digest=True)
+    if key:
+        A["grow"] = A["uad"]
     return A
 
 
@@ -826,7 +833,71 @@ def mac_case(ctx, A, fam, data, gen, segs, rng, desc, mk_other, do_accept=True, 
             return A["ctor"](data, style)
         return feed(A["ctor"](None, style), data, segs, rng)
     acceptance(ctx, fam, A["name"], mk, exp, mk_other(), rng, w0, all_truncations)
+    if A.get("grow") and len(data) >= 2:
+        growing_history(ctx, A, data, rng, w0)
     return exp
+
+
+def growing_history(ctx, A, data, rng, w0):
+    """ONE MAC object that authenticates a growing message (the classes that allow update() after the tag was asked for):
+    after every extension, whichever of digest / hexdigest / verify / hexverify comes first must answer for ALL the octets
+    so far - the true tag accepted, the tag of an earlier, shorter prefix refused."""
+    name = A["name"]
+    cuts = sorted(set(rng.randrange(1, len(data)) for _ in range(rng.randrange(1, 4)))) + [len(data)]
+    try:
+        o = A["grow"]()
+    except Exception as e:      # noqa
+        ctx.check(False, "%s:exception:%s" % (name, type(e).__name__), "constructor of a MAC object raised", dict(w0(), exception=repr(e)))
+        return
+    pos, earlier, hist = 0, [], []
+    for c in cuts:
+        try:
+            r = o.update(data[pos:c])
+        except TypeError:
+            # HMAC over SHA-3: the inner hash refuses update() after digest() by design; a refusal answers nothing wrongly
+            if pos and name.startswith("hmac_sha3"):
+                ctx.count("growing:update-refused-by-design")
+                return
+            raise
+        o = r if r is not None else o
+        pos = c
+        tag = expect(ctx, A["oracles"], data[:c])
+        if tag is None:
+            return
+        ops = [rng.choice(["digest", "hexdigest", "verify", "hexverify", "verify-earlier"] if earlier else ["digest", "hexdigest", "verify", "hexverify"])]
+        ops += [rng.choice(["digest", "verify", "verify-earlier"] if earlier else ["digest", "verify"])]
+        for op in ops:
+            hist.append((c, op))
+            w = lambda: dict(w0(), history=["%s after %d octets" % (b, a) for a, b in hist], expected_tag=tag.hex())
+            try:
+                if op == "digest":
+                    ok = o.digest() == tag
+                elif op == "hexdigest":
+                    ok = o.hexdigest() == tag.hex()
+                elif op == "verify":
+                    o.verify(tag); ok = True
+                elif op == "hexverify":
+                    o.hexverify(tag.hex()); ok = True
+                else:
+                    old = rng.choice(earlier)
+                    if old == tag:
+                        continue
+                    try:
+                        o.verify(old)
+                        ctx.check(False, "accept:%s:tag-of-shorter-prefix-accepted" % name,
+                                  "%s accepted the tag of an earlier, shorter message after update()" % name, w)
+                    except ValueError:
+                        pass
+                    ctx.count("growing:earlier-tag-refused")
+                    continue
+            except ValueError:
+                ok = False
+            ctx.check(ok, "accept:%s:growing-message:%s" % (name, "true-tag-rejected" if "verify" in op else "wrong-output"),
+                      "%s: %s after update() on an object whose tag had been asked for does not answer for all the octets so far" % (name, op), w)
+            ctx.count("growing:" + op)
+        earlier.append(tag)
+    ctx.count("growing_histories")
+    ctx.count("growing_histories:" + A["fam"].split(":")[-1].split("_")[0])
 
 
 # ---------------------------------------------------------------------------
@@ -932,6 +1003,7 @@ def hmac_adapter(hname, key, H, default=False):
         for dm in {"sha256": (SHA1, SHA512), "sha1": (SHA256, MD5), "sha512": (SHA256, SHA3_256)}.get(hname, (SHA256, SHA512)):
             HMAC.new(key, b"decoy", dm).digest()
     A["ctor"] = with_decoy(ctor, decoy)
+    A["grow"] = lambda: ctor(None, 2)
     return A
 
 
@@ -1044,6 +1116,8 @@ def cmac_adapter(cname, key, mac_len, ekl=None):
                 pass
         CMAC.new(key, b"decoy", ciphermod=mod, mac_len=4 if mac_len != 4 else 5, **({"cipher_params": {"effective_keylen": 40}} if cname == "arc2" else {})).digest()
     A["ctor"] = with_decoy(ctor, decoy)
+    A["grow"] = lambda: CMAC.new(key, ciphermod=mod, update_after_digest=True, **dict(({"cipher_params": params} if params else {}),
+                                                                                      **({"mac_len": mac_len} if mac_len is not None else {})))
     return A
 
 
@@ -1079,6 +1153,8 @@ def w_cmac(spec, ctx, H):
         if do_accept and exp2 is not None:
             w0 = lambda: {"algo": A["name"], "params": A["params"], "msg_gen": gen, "msg": hx(data)}
             acceptance(ctx, "cmac", A["name"], lambda: A["ctor"](data, rng.randrange(8)), exp, other(), rng, w0)
+            if len(data) >= 2:
+                growing_history(ctx, A, data, rng, w0)
 
     if spec["rep"] == 0:
         domain_checks(ctx, "cmac") if "aes" in names else None
